@@ -370,7 +370,7 @@ class Canon:
                         items.append(f"{s(self.norm(d[0]))}: {s(self.norm(d[1]))}"
                                      + self._gens_rel(d[2], h.get("pc0", ()), ln))
                     else:
-                        items.append("...")
+                        items.append("?dyn")
             finally:
                 busy.discard(t[1])
             return "{" + ", ".join(items) + "}"
@@ -389,7 +389,7 @@ class Canon:
                         items.append(star + s(self.norm(d[1][0]))
                                      + self._gens_rel(d[2], h.get("pc0", ()), ln))
                     else:
-                        items.append("...")
+                        items.append("?dyn")
             finally:
                 busy.discard(t[1])
             return "[" + ", ".join(items) + "]"
